@@ -1,5 +1,6 @@
 import Driver.Base
 import WitnessVerif.Model.ProofFmt
+import WitnessVerif.Generated.Facts
 /-
 Records of the bastion endpoint: `HCFG`, `H` (one request through the real handler), `PBW`/`PB`
 (`parseBody` alone).
@@ -31,8 +32,10 @@ def handleH (st : St) (n : Nat) (toks : List String) : Result := Id.run do
   let some body := (get "body").bind hexOfString | return { st, out := [s!"BAD {n} body"] }
   let some states := (get "states").bind parseStates | return { st, out := [s!"BAD {n} states"] }
   let some post := (get "post").bind parseStates | return { st, out := [s!"BAD {n} post"] }
-  let allow := (get "allow").getD "1" == "1"
+  -- allow=2: the harness cannot know what the limiter decided (timing); the answer itself tells
+  let allowS := (get "allow").getD "1"
   let some istatus := (get "status").bind String.toNat? | return { st, out := [s!"BAD {n} status"] }
+  let allow := if allowS == "2" then istatus != 429 else allowS == "1"
   let some ictype := (get "ctype").bind hexOfString | return { st, out := [s!"BAD {n} ctype"] }
   let some irbody := (get "rbody").bind hexOfString | return { st, out := [s!"BAD {n} rbody"] }
   let expect := (get "expect").getD "-"
@@ -43,7 +46,8 @@ def handleH (st : St) (n : Nat) (toks : List String) : Result := Id.run do
   let run (dflt : Bool) : Bastion.Resp × Option Wit.Out :=
     let cfg := mkCfg st s dflt
     let h : Bastion.HCfg := { logs := s.logs.map (fun l => (l.id, l.origin)), witV := mkVerifier st.vtab dflt wsc.name wsc.hash wvVid }
-    Bastion.serve cfg h (storeOf states) allow body
+    if (get "e2e").getD "0" == "1" then Bastion.serveConn Facts.maxBodyBytes cfg h (storeOf states) allow body
+    else Bastion.serve cfg h (storeOf states) allow body
   let (rF, oF) := run false
   let (rT, _) := run true
   let mut st := st
@@ -55,7 +59,8 @@ def handleH (st : St) (n : Nat) (toks : List String) : Result := Id.run do
   if rF.status != istatus then
     ok := false
     outs := outs ++ [s!"DIVERGE {n} H field=status model={rF.status} impl={istatus}"]
-  if rF.ctype != ictype then
+  -- over a real connection net/http fills in a sniffed Content-Type when the handler set none: only a required one is compared
+  if rF.ctype != ictype && !((get "e2e").getD "0" == "1" && rF.ctype.isEmpty) then
     ok := false
     outs := outs ++ [s!"DIVERGE {n} H field=ctype model={hx rF.ctype} impl={hx ictype}"]
   if rF.body != irbody then
@@ -102,6 +107,9 @@ def handleH (st : St) (n : Nat) (toks : List String) : Result := Id.run do
       st := r.st; outs := outs ++ r.out
   if istatus == 429 && statesShow states != statesShow post then
     let r := fail st n "C10" "rate-limited request was processed (state changed)"
+    st := r.st; outs := outs ++ r.out
+  if allowS == "1" && istatus == 429 then
+    let r := fail st n "C10" s!"class={cls}: a request within the configured rate (the caller had waited long enough for a token) was answered 429"
     st := r.st; outs := outs ++ r.out
   if !allow && istatus != 429 then
     let r := fail st n "C10" s!"request over the configured rate answered {istatus}, not 429"
